@@ -19,7 +19,7 @@ from ..core import (
 )
 from ..interp import Interp
 from ..table import Atoms, describe, explore, norm_cmp
-from .common import kw
+from .common import func_cfg, kw
 from .tables_region import N
 
 MULTS = ("MULT_ONE_OR_MORE", "MULT_ZERO_OR_MORE", "MULT_OPTIONAL")
@@ -261,7 +261,12 @@ def _prod_descr(c, v, names):
             return "ASSOC_RIGHT" if v["greedy"] else "ASSOC_NONE"
         return t
 
-    return (sym(lhs), [sym(x) for x in rhs.args[0].elts], flag("assoc", "ASSOC_NONE"), flag("nops", "False"), flag("nopse", "False"))
+    d = (sym(lhs), [sym(x) for x in rhs.args[0].elts], flag("assoc", "ASSOC_NONE"), flag("nops", "False"), flag("nopse", "False"))
+    extra = sorted(f"{k.arg}={plain(k.value)[:40]}" for k in c.keywords if k.arg not in ("assoc", "nops", "nopse"))
+    if extra or len(c.args) > 2:
+        # anything else a helper production is given (a priority, dynamic, ...) is not in the documented expansion
+        d = d + ("undocumented: " + ", ".join(extra + [plain(a)[:30] for a in c.args[2:]]),)
+    return d
 
 
 def rule_expansion(rep):
@@ -514,6 +519,23 @@ def rule_groups(rep):
             "group rules are no longer named <rule>_g<n> from a counter incremented once per group "
             "and created with the rule's meta-data",
             node=f.node,
+        )
+        # the rule's @action names the rule, not the anonymous rules made from its groups
+        wa, wg = func_cfg(rep.repo, "parglare.grammar.act_production_rule_with_action")
+        ext = [n for n, c in wg.nodes_calling("extend") if "group_productions" in unparse(c)]
+        stamps = [
+            n for n in wg.nodes if n.kind == "stmt" and isinstance(n.ast, ast.Assign)
+            and any(isinstance(t_, ast.Attribute) and t_.attr == "action_name" for t_ in n.ast.targets)
+        ]
+        r.need(ext and stamps, "act_production_rule_with_action: action stamping / group extension not found")
+        after = wg.reach([m for e in ext for _, m in e.succ])
+        r.check(
+            not any(s_ in after for s_ in stamps),
+            "the rule's action name is given to the rule's own productions only (groups are added afterwards)",
+            "act_production_rule_with_action:stamp-before-groups",
+            "the productions of the group rules are added before the rule's @action name is stamped: the anonymous "
+            "group rules get the enclosing rule's action (results differ from the documented expansion)",
+            node=stamps[0].ast,
         )
         g = rep.repo.func("parglare.grammar.act_production_group")
         t = unparse(g.node)
